@@ -14,11 +14,11 @@ CHECKS = {
             "DESIGN.md section 6, C01"),
     "C02": ("exploration", WM + ": reference interpolation from ground-truth nodes at every forcing update; paired runs through two legal subgrids; storage layout (subgrid, packing, stagger, masks, stretching) as the searched dimension",
             "The real Grid/Forcing read seeded synthetic ROMS files (sub-rectangles incl. negative indices, packed or float, 1..8 levels, masks) and the public velocity()/variables are compared particle by particle with an independent interpolation of the generator's node values, with the corner range, and with the same world loaded through another subgrid (bit-equal). Sampling over layouts and positions.",
-            "Trusts the independent implementation of the ROMS s-coordinate formulas in ladsim/truth.py and netCDF4; ties at cell edges and s-levels are not judged.",
+            "Trusts the independent implementation of the ROMS s-coordinate formulas in ladsim/truth.py and netCDF4; a particle on a cell edge may take level pair and scalars of either adjoining cell, but of one and the same cell; depths on an s-level are not judged.",
             "DESIGN.md section 6, C02"),
     "C03": ("exploration", WM + ": frame/file layout histories (spacing incl. dt, irregular, one frame per file, start between frames, reversed) with a linear-in-time reference checked at every step and fraction",
             "The incremental forcing update, its hand-over at frame steps and the file switching are stateful over the model clock; every case steps the real model over a seeded layout and checks the public velocity at fractions 0, .25, .5, 1 and the scalar fields at every step against the ground truth. Sampling over layouts with probes that the rare situations (spacing = dt, reversed file switch, start straddling files) were hit.",
-            "Frames lie on the model time grid (premise); tolerance 1e-4 of the largest speed (float32 accumulation) against frame amplitudes at least 8 % apart.",
+            "Frames lie on the model time grid (premise), stored in seconds, whole hours or float days; tolerance 1e-4 of the largest speed (float32 accumulation) against frame amplitudes at least 8 % apart.",
             "DESIGN.md section 6, C03"),
     "C04": ("exploration", WM + ": state before/after every release.update compared with a reference release schedule (window, multiplicity, order, columns, continuous ticks, lon/lat)",
             "Release accounting is a property of the history of steps; each case runs the real releaser inside the model on a seeded table and window and compares, at the release seam, exactly which particles entered at which step with which values. Sampling over tables, windows, modes and directions.",
@@ -48,7 +48,7 @@ CHECKS = {
             "A relation between two executions of the real model: record for record the same pids and positions, plus the reversed clock at every step. Sampling over layouts, release tables and schemes.",
             "Scalar forcing left out of the pair comparison (values identify frames); tolerance 1e-6 cells.",
             "DESIGN.md section 6, C10"),
-    "C11": ("exploration", WM + " with a seeded randomness seam: injected numpy Generator, clouds of 2e4..1e6 particles in an analytic still-water plug-in world, moment / covariance / independence statistics at 6.5 standard errors, bit-identity across seeds at zero coefficients, continuation after a warm start from 32-bit positions",
+    "C11": ("exploration", WM + " with a seeded randomness seam: injected numpy Generator, clouds of 2e4..1e6 particles in an analytic still-water plug-in world, moment / covariance / independence statistics at 6.5 standard errors, bit-identity across seeds at zero coefficients, vertical random walk with and without a vertical current, continuation after a warm start from 32-bit positions",
             "The randomness source is owned by the simulator (one integer decides every draw), the statement is distributional; each seeded parameter setting is judged per step and cumulatively with wide deterministic bands. Sampling over D, Dz, dt, dx, dy over several decades.",
             "Bands of 6.5 standard errors; normality not tested; analytic plug-in grid/forcing are stubs.",
             "DESIGN.md section 6, C11"),
@@ -76,11 +76,11 @@ CHECKS = {
             "The same seeded simulation is written in every spelling and variant and the real model is run on each; outputs must be identical. No fault or history dimension; the simulator contributes the worlds and the seeded RNG seam for diffusion.",
             "Restricted to the version-1 vocabulary; forcing.module always given.",
             "DESIGN.md section 6, C18"),
-    "C19": ("exploration", WM + " with recording shims on all eight modules: call-order / exactly-once / visibility rules over the recorded history, cold and warm start, plug-in precedence with an importable decoy, sampled runs through ladim.main.main()",
+    "C19": ("exploration", WM + " with recording shims on all eight modules: call-order / exactly-once / visibility rules over the recorded history, cold and warm start, plug-in precedence with an importable decoy, sampled runs through ladim.main.main(), isolation of a plain run made before and after the run with plug-ins in the same process",
             "Ordering and exactly-once over the recorded call log and state snapshots of every step of seeded runs; plug-ins given by absolute path, relative path with and without .py, and module name.",
             "The shims override only existing methods and delegate unchanged.",
             "DESIGN.md section 6, C19"),
-    "C20": ("fault_enumeration", "start-up fault injection: a catalogue of 19 fault kinds (with applicability predicate and effect proof) applied to valid seeded base scenarios, singly and in combinations of 2-3; thorough: every kind on every base",
+    "C20": ("fault_enumeration", "start-up fault injection: a catalogue of 21 fault kinds (with applicability predicate and effect proof) applied to valid seeded base scenarios, singly and in combinations of 2-3; thorough: every kind on every base",
             "Each fault makes the set-up impossible by construction; the real configure()/Model() must refuse and no record may exist afterwards; unfaulted controls must start.",
             "Any exception type counts as refusal; the catalogue is finite and listed in ladsim/oracles/c20.py.",
             "DESIGN.md section 6, C20"),
